@@ -60,7 +60,7 @@ func c29Mask(field string, cols []uint64) uint64 {
 func TestVerifC29(t *testing.T) {
 	r := vk.Start(t, "C29")
 	defer r.Finish()
-	for _, o := range []string{"set", "clear", "clearrow", "row", "count", "import", "importclear", "bg:store", "bg:topn", "bg:rows", "bg:sum", "bg:recalc", "bg:flush", "bg:snapshot", "bg:intset", "bg:topn-ids"} {
+	for _, o := range []string{"set", "clear", "clearrow", "row", "count", "import", "importclear", "bg:store", "bg:topn", "bg:rows", "bg:sum", "bg:recalc", "bg:flush", "bg:snapshot", "bg:intset", "bg:topn-ids", "bg:importvalue"} {
 		r.Expect("op:" + o)
 	}
 	var hookN uint64
@@ -229,8 +229,8 @@ func TestVerifC29(t *testing.T) {
 						}
 					default:
 						// background traffic on the same fragments / fields, not part of the lin history
-						bg := rng.Intn(11)
-						names := []string{"store", "topn", "rows", "sum", "recalc", "flush", "snapshot", "intset", "topn-ids", "topn-ids", "topn-ids"}
+						bg := rng.Intn(13)
+						names := []string{"store", "topn", "rows", "sum", "recalc", "flush", "snapshot", "intset", "topn-ids", "topn-ids", "topn-ids", "importvalue", "importvalue"}
 						r.Cover("op:bg:" + names[bg])
 						var err error
 						switch bg {
@@ -252,6 +252,15 @@ func TestVerifC29(t *testing.T) {
 							}
 						case 7:
 							_, err = query(fmt.Sprintf("Set(%d, v=%d)", col, rng.Intn(2001)-1000))
+						case 11, 12:
+							// a value import large enough to write straight to storage and then wait for the
+							// background snapshot: several clients wait on the same fragment's snapshot at once
+							req := &pilosa.ImportValueRequest{Index: index, Field: "v", Shard: 0}
+							for j := 0; j < 6+rng.Intn(20); j++ {
+								req.ColumnIDs = append(req.ColumnIDs, uint64(rng.Intn(5000)))
+								req.Values = append(req.Values, int64(rng.Intn(2001)-1000))
+							}
+							err = m.API.ImportValue(ctx, req)
 						default:
 							// explicit ids: counts are read from the fragment's count cache without the fragment lock
 							_, err = query(fmt.Sprintf("TopN(%s, ids=[0,1,2,3])", field))
